@@ -312,3 +312,19 @@ func RangeChan[T any](c <-chan T) func(func(T) bool) {
 
 // IsClosed reports whether the scheduler has seen close(c).
 func IsClosed[T any](c <-chan T) bool { return X.closed[chanPtr(c)] }
+
+// CloseQuiet closes c like Close but is not a scheduling point (for environment models that
+// run inside timer callbacks).
+func CloseQuiet[T any](c chan T) {
+	x := X
+	if x.teardown {
+		return
+	}
+	id := *(*uintptr)(unsafe.Pointer(&c))
+	if x.closed[id] {
+		return
+	}
+	x.closed[id] = true
+	x.keep = append(x.keep, c)
+	close(c)
+}
